@@ -100,7 +100,8 @@ fn handle(req: &Value) -> Value {
 		#[cfg(feature = "crypto")]
 		"genkey" => {
 			let alg = alg_by_name(req["alg"].as_str().unwrap_or("")).ok_or("unknown algorithm")?;
-			let k = rcgen::KeyPair::generate_for(alg).map_err(|e| e.to_string())?;
+			// RSA keys: through generate_for, or through generate_rsa_for with the size asked for (aws-lc-rs)
+			let k = crate::props::c01::generate_key(alg, req["rsa_size"].as_u64().unwrap_or(0) as u8).map_err(|e| e.to_string())?;
 			// the generated key signs here, before it is ever saved: the other build checks the signature
 			let csr = rcgen::CertificateParams::default().serialize_request(&k).map_err(|e| e.to_string())?;
 			Ok(json!({"pk8": hex(&k.serialize_der()), "pem": k.serialize_pem(), "spki": hex(&k.public_key_der()), "alg": alg_name(k.algorithm()), "csr": hex(csr.der())}))
@@ -381,7 +382,12 @@ pub fn check_keyx(k: &KeyXchg, info: &mut CaseInfo) -> Result<(), String> {
 			let csr = unhex(r["csr"].as_str().unwrap_or(""))?;
 			rcgen::CertificateSigningRequestParams::from_der(&csr.into()).map_err(|e| format!("request signed in aws-lc-rs with a ring-exported key does not verify: {e}"))?;
 		} else {
-			let r = ask(aws, &json!({"op": "genkey", "alg": name}))?;
+			// RSA: half through generate_for, the rest through generate_rsa_for (2048 twice as often as 3072 / 4096)
+			let rsa_size: u8 = if name.starts_with("RSA_") { [0, 0, 0, 0, 1, 1, 2, 3][(k.alg as usize / names.len()) % 8] } else { 0 };
+			if rsa_size != 0 {
+				info.class(format!("generate_rsa_for:{}", [0, 2048, 3072, 4096][rsa_size as usize]));
+			}
+			let r = ask(aws, &json!({"op": "genkey", "alg": name, "rsa_size": rsa_size}))?;
 			if r["ok"] != json!(true) {
 				return Err(format!("INTERNAL: aws genkey failed: {}", r["err"]));
 			}
@@ -395,6 +401,12 @@ pub fn check_keyx(k: &KeyXchg, info: &mut CaseInfo) -> Result<(), String> {
 			// (auto-detection labels every RSA key RSA_SHA256)
 			if Some(hex(&key.public_key_der()).as_str()) != r["spki"].as_str() || (!rsa && alg_name(key.algorithm()) != name) {
 				return Err(format!("a {name} key exported by aws-lc-rs loads in ring with a different public key or algorithm"));
+			}
+			if rsa_size != 0 {
+				let bits = openssl::pkey::PKey::public_key_from_der(&key.public_key_der()).map_err(|e| e.to_string())?.bits();
+				if bits != [0, 2048, 3072, 4096][rsa_size as usize] {
+					return Err(format!("generate_rsa_for was asked for {} bits; the exported key has {bits}", [0, 2048, 3072, 4096][rsa_size as usize]));
+				}
 			}
 			// what the freshly generated key signed over there verifies here under the declared algorithm
 			let csr = unhex(r["csr"].as_str().unwrap_or(""))?;
@@ -564,7 +576,7 @@ pub fn def() -> PropertyDef {
 	let _ = mk::KU_ALL;
 	PropertyDef {
 		id: "C16",
-		rule: "Feature sets: the complete product {ring, aws_lc_rs, none} x {pem} x {x509-parser} x {zeroize} for rcgen plus {ring, aws_lc_rs} for rustls-cert-gen, each compiled with cargo check (driven by /verif/check; exhaustive). Differential: certificates / CSRs / CRLs over the C02/C07/C08 spaces with algorithms common to both back ends are generated by the ring build (parent) and by persistent child processes of the aws-lc-rs build and, when the case is expressible without a crypto library (explicit serial, pre-specified key identifiers), of the crypto-less build (remote signer); to-be-signed bytes must be byte-identical, signatures made by one back end must verify with the other's own verifier and with OpenSSL; keys generated and exported (DER/PEM) by one back end must load in the other with the same public key and algorithm, and so must fixture keys that one build loaded through any of its loading routes (SEC1 / PKCS#1 documents under aws-lc-rs included) and saved. Non-trivial = artefact with at least one extension / attribute / entry; every key exchange; every non-default feature set.",
+		rule: "Feature sets: the complete product {ring, aws_lc_rs, none} x {pem} x {x509-parser} x {zeroize} for rcgen plus {ring, aws_lc_rs} for rustls-cert-gen, each compiled with cargo check (driven by /verif/check; exhaustive). Differential: certificates / CSRs / CRLs over the C02/C07/C08 spaces with algorithms common to both back ends are generated by the ring build (parent) and by persistent child processes of the aws-lc-rs build and, when the case is expressible without a crypto library (explicit serial, pre-specified key identifiers), of the crypto-less build (remote signer); to-be-signed bytes must be byte-identical, signatures made by one back end must verify with the other's own verifier and with OpenSSL; keys generated (generate_for; under aws-lc-rs also generate_rsa_for with 2048/3072/4096 bits) and exported (DER/PEM) by one back end must load in the other with the same public key, size and algorithm, and so must fixture keys that one build loaded through any of its loading routes (SEC1 / PKCS#1 documents under aws-lc-rs included) and saved. Non-trivial = artefact with at least one extension / attribute / entry; every key exchange; every non-default feature set.",
 		assumptions: vec!["the children run the same generator-independent Spec -> rcgen mapping (mk.rs), so a difference in output is a difference between the rcgen builds", "fips is not covered (needs a Go toolchain; not in the property's feature list)"],
 		subs: vec![
 			prop_sub("tbs-differential", 16_000, 200_000, common_art, check_tbs),
